@@ -129,7 +129,12 @@ func errStr(err error) string {
 	return err.Error()
 }
 
-func setGMP(n int) { runtime.GOMAXPROCS(n) }
+func setGMP(n int) {
+	if gmpOverride > 0 {
+		n = gmpOverride // C15 chooses the number of OS threads itself
+	}
+	runtime.GOMAXPROCS(n)
+}
 
 func tierN(tier string, quick, thorough int) int {
 	if tier == "thorough" {
